@@ -4,5 +4,6 @@ CONSTANTS
   Tier = "quick"
 INIT Init
 NEXT Next
+INVARIANT RoundTrip
 INVARIANT Emit
 CHECK_DEADLOCK FALSE
